@@ -24,7 +24,8 @@ R = {
     "C04-r4B": ("src/clone_cmd.rs: two cooperating edits - the output grown up front, final set_len kept only for --seed-output",
                 "--force-create without --seed-output over a longer existing file (passes --verify-output)", ["C04", "C01"], "caught at once"),
     "C05-r4A": ("src/clone_cmd.rs: 'output is already up to date' fast path returns before the final truncate",
-                "re-run in place over a crash state that holds every chunk but is longer than the source (fixed-size chunks)", ["C05", "C03"], "caught at once"),
+                "re-run in place over a crash state that holds every chunk but is longer than the source (fixed-size chunks)", ["C05", "C03"],
+                "MISSED by C05 at first (caught by C03): c05_crash now starts from the crash states of a shrinking in-place update (all chunks in place, file still as long as the old one)"),
     "C05-r4B": ("clone_output.rs: chunks read back with a single take().read_buf() (as C03-r4A, found independently)",
                 "a chunk > 2 MiB moved during the re-run", ["C05"], "MISSED at first by C05's own suites; caught since the executor suite (which C05 runs) reads in pieces"),
     "C06-r4A": ("clone_output.rs reorder_in_place: 'changed since the scan' re-check compares the full digest with the truncated key: every copy skipped",
@@ -73,26 +74,29 @@ R = {
     "C15-r4B": ("http_range_request.rs: retry budget refilled whenever response headers arrive",
                 "retries >= 1 and a server that sends headers but never a body byte", ["C15", "C08"], "caught at once"),
     "C16-r4A": ("src/clone_cmd.rs: shared `scan_options` OpenOptions keeps write+create after the output was opened through it",
-                "--seed-output together with a --seed FILE", ["C16"], None),
+                "--seed-output together with a --seed FILE", ["C16"], "caught at once"),
     "C16-r4B": ("src/compress_cmd.rs: temp file via create_new with fallback names, the configured name removed at the end",
-                "a stale temp file at the temp path", ["C16", "C11"], None),
+                "a stale temp file at the temp path", ["C16", "C11"],
+                "at first only as a broken tie (temp open flags / step order no longer as modelled, no failing input); c16_files now compresses over a stale temp file and judges the listing"),
     "C17-r4A": ("io_reader.rs: 'save a seek' read-over of gaps up to 4096 bytes, skip count not reset on the seek path",
                 "conforming archive: a small gap followed by a backward jump", ["C17", "C08"], "caught at once"),
     "C17-r4B": ("hashsum.rs/chunk.rs: chunk verified with Blake2bVar of the truncated length (not a prefix of the 64-byte digest)",
                 "any archive with hash length < 64", ["C17", "C04"], "caught at once"),
     # round 5: the command-line layer only
     "C04-r5A": ("string_utils.rs hex_str_to_vec over bytes.chunks_exact(2): an unpaired last character is ignored",
-                "--verify-header <checksum><one more character>", ["C04", "C14"], None),
+                "--verify-header <checksum><one more character>", ["C04", "C14"], "caught at once (l1 opts: model mismatch and the independent pin oracle)"),
     "C04-r5B": ("cli.rs: --verify-header read as a String and parsed leniently later - an unparsable text becomes 'no pin'",
-                "a pin text with a non-hex character, a 0x prefix, trailing text", ["C04", "C14"], None),
+                "a pin text with a non-hex character, a 0x prefix, trailing text", ["C04", "C14"],
+                "caught at once by the model comparison; the oracle 'a given pin is checked' was added after reading this change, before the first run"),
     "C11-r5A": ("string_utils.rs parse_human_size table-driven on u32 with checked_shl (bits shifted out silently)",
-                "a size with a unit whose value is 4 GiB or more (5GiB -> 1GiB)", ["C11", "C01"], None),
+                "a size with a unit whose value is 4 GiB or more (5GiB -> 1GiB)", ["C11", "C01"], "caught at once (l1 opts size table and the 32-bit oracle)"),
     "C11-r5B": ("cli.rs: --metadata-value through OsString + to_string_lossy",
-                "a metadata value that is not UTF-8", ["C11"], None),
+                "a metadata value that is not UTF-8", ["C11"], "the raw-argument metadata cases of l1 opts were added after reading this change, before the first run"),
     "C14-r5A": ("string_utils.rs hex_str_to_vec via chunks(2): an odd-length text pads the LAST digit instead of the first",
-                "a 127-digit text that is not the checksum, last checksum byte < 0x10", ["C14", "C04"], None),
+                "a 127-digit text that is not the checksum, last checksum byte < 0x10", ["C14", "C04"], "caught at once (C14 runs l1 opts since this round)"),
     "C14-r5B": ("cli.rs: a --seed value equal to the OUTPUT path is dropped from the seeds and switches --seed-output on",
-                "the existing output also named as a seed, no -f / --seed-output", ["C14", "C02"], None),
+                "the existing output also named as a seed, no -f / --seed-output", ["C14", "C02"],
+                "the clone option sets of l1 opts (model parseClone, seeds naming the output among them) were added after reading this change, before the first run"),
 }
 
 
